@@ -1,10 +1,14 @@
 #!/venv/bin/python
 """usage: tools/roundeval.py <prefix e.g. /tmp/w3_> <PROP> [extra check ids...]
+   or: tools/roundeval.py --dir /tmp/w4_tag <PROP> [extra check ids...]
 For every <prefix><PROP>/seeded/N: confirm (demo 0/1, tests) and run the quick check of PROP (and extras); one line each."""
 import glob, os, shutil, subprocess, sys, tempfile
 prefix, prop = sys.argv[1], sys.argv[2]
 extra = sys.argv[3:]
-for d in sorted(glob.glob(f"{prefix}{prop}/seeded/*/")):
+root = f"{prefix}{prop}"
+if prefix == "--dir":
+    root, prop, extra = sys.argv[2], sys.argv[3], sys.argv[4:]
+for d in sorted(glob.glob(f"{root}/seeded/*/")):
     n = os.path.basename(d.rstrip("/"))
     S = tempfile.mkdtemp(prefix="jseed.", dir="/tmp")
     try:
